@@ -25,6 +25,7 @@ type SVal struct {
 	Ghost *GhostHeap
 	Nil   bool
 	Bin   string // builtin name
+	CellOf types.Type // the binding is a cell (variable captured by reference): reads dereference it
 }
 
 type SEnv struct {
@@ -384,7 +385,18 @@ func (e *SEnv) ident(x *SX) *SVal {
 		}
 	}
 	if v, ok := e.vars[x.Tok]; ok {
+		if v.CellOf != nil {
+			a := v.V.A
+			if a == nil {
+				a = &Addr{Base: v.V.T, T: v.CellOf}
+			}
+			return &SVal{V: e.fr.wrap(e.g.load(e.heap, a), v.CellOf), T: v.CellOf}
+		}
 		return v
+	}
+	switch x.Tok {
+	case "me", "child":
+		return &SVal{V: &Val{T: e.g.tid(x.Tok)}, T: types.Typ[types.Int]}
 	}
 	if sf, ok := e.g.P.Contracts.SpecFuncs[x.Tok]; ok {
 		return &SVal{Spec: sf}
@@ -1259,9 +1271,7 @@ func (fr *Frame) specBool(x *SX, h Heap, b *ssa.BasicBlock, c Clause) string {
 
 func (fr *Frame) specBoolAt(x *SX, h Heap, b *ssa.BasicBlock, c Clause, _ bool) string {
 	env := fr.newSpecEnv(h, fr.entry)
-	for _, p := range fr.fn.Params {
-		env.vars[p.Name()] = &SVal{V: fr.vals[p], T: p.Type()}
-	}
+	fr.bindParams(env)
 	env.where = fmt.Sprintf("%s:%d", c.File, c.Line)
 	env.locals = func(name string) *SVal { return fr.localAt(name, b, h) }
 	env.pre = func(name string) *SVal {
@@ -1398,14 +1408,7 @@ func (fr *Frame) checkEnsures(ret *ssa.Return, rs []*Val, h Heap) {
 		return
 	}
 	env := fr.newSpecEnv(h, fr.entry)
-	for _, p := range fr.fn.Params {
-		env.vars[p.Name()] = &SVal{V: fr.vals[p], T: p.Type()}
-	}
-	for _, fv := range fr.fn.FreeVars {
-		if v, ok := fr.vals[fv]; ok {
-			env.vars[fv.Name()] = &SVal{V: v, T: fv.Type()}
-		}
-	}
+	fr.bindParams(env)
 	res := fr.fn.Signature.Results()
 	switch res.Len() {
 	case 0:
